@@ -58,11 +58,11 @@ def _derives_from_outs(f, cfg: CFG, e: ast.AST, at: int, depth: int = 6) -> str 
                 h_ = f.module.functions.get(nm_) if isinstance(elt.func, ast.Name) else None
                 if h_ is not None:
                     params_ = {a_.arg for a_ in h_.raw_node.args.args}
-                    rets_ = [x for x in walk_local(h_.raw_node) if isinstance(x, ast.Return) and x.value is not None]
+                    rets_ = [x for x in walk_local(h_.as_raw().node) if isinstance(x, ast.Return) and x.value is not None]
                     ok_ = bool(rets_)
                     for rt_ in rets_:
                         for nn_ in ast.walk(rt_.value):
-                            if isinstance(nn_, ast.Name) and nn_.id not in params_ and not any(isinstance(s_, ast.Assign) and unparse(s_.targets[0]) == nn_.id and isinstance(s_.value, ast.Call) and call_attr(s_.value) == "allocate_value" for s_ in walk_local(h_.raw_node)):
+                            if isinstance(nn_, ast.Name) and nn_.id not in params_ and not any(isinstance(s_, ast.Assign) and unparse(s_.targets[0]) == nn_.id and isinstance(s_.value, ast.Call) and call_attr(s_.value) == "allocate_value" for s_ in walk_local(h_.as_raw().node)):
                                 ok_ = False
                     if ok_:
                         return src
@@ -464,8 +464,8 @@ def check_register_scan(idx: Index, rep: Report) -> None:
     for q in ("RegisterAllocatableOperation.all_used_registers", "RegisterAllocatableOperation.all_excluded_registers"):
         f = idx.func(RAB, q)
         reg = f.raw_node.args.args[0].arg
-        comps = [n for n in ast.walk(f.raw_node) if isinstance(n, (ast.SetComp, ast.GeneratorExp, ast.ListComp))]
-        fors = [n for n in ast.walk(f.raw_node) if isinstance(n, ast.For)]
+        comps = [n for n in ast.walk(f.as_raw().node) if isinstance(n, (ast.SetComp, ast.GeneratorExp, ast.ListComp))]
+        fors = [n for n in ast.walk(f.as_raw().node) if isinstance(n, ast.For)]
         iters = [g.iter for c in comps for g in c.generators[:1]] + [w.iter for w in fors[:1]]
         if not iters:
             raise AnalysisError(f"{f.fq}: scan of the region not found")
@@ -479,8 +479,8 @@ def check_register_scan(idx: Index, rep: Report) -> None:
             if h is None and f.cls is not None and f.cls.method(hname) is not None:
                 h = f.cls.method(hname)
             if h is not None:
-                pruned = [n for n in walk_local(h.raw_node) if isinstance(n, ast.If) and any(isinstance(y, (ast.YieldFrom, ast.For)) or (isinstance(y, ast.Call) and call_attr(y) in ("walk", hname, "extend")) for b_ in n.body + n.orelse for y in ast.walk(b_)) and re.search(r"has_trait|isinstance|get_effects|regions", unparse(n.test))]
-                full = any(isinstance(n, ast.Call) and call_attr(n) == "walk" for n in ast.walk(h.raw_node)) and not pruned
+                pruned = [n for n in walk_local(h.as_raw().node) if isinstance(n, ast.If) and any(isinstance(y, (ast.YieldFrom, ast.For)) or (isinstance(y, ast.Call) and call_attr(y) in ("walk", hname, "extend")) for b_ in n.body + n.orelse for y in ast.walk(b_)) and re.search(r"has_trait|isinstance|get_effects|regions", unparse(n.test))]
+                full = any(isinstance(n, ast.Call) and call_attr(n) == "walk" for n in ast.walk(h.as_raw().node)) and not pruned
                 if pruned:
                     r.fail(f.fq, Finding("C19.R8", f.fq, f"pruned-scan:{hname}", f"`{unparse(it)}` descends into nested regions only under `{unparse(pruned[0].test)}`: registers pre-assigned or excluded only inside the operations that are skipped are not removed from the pool before allocation and are handed to other live values", f"{RAB}:{pruned[0].lineno}"))
                     continue
